@@ -308,6 +308,9 @@ func runC07(e *Env) {
 	r.Floor("E3.nil-on-error(error returns)", nRet, 3)
 	r.Count("functions in the compile call graph", len(cfns))
 
+	// ---------------- the converse: nothing but the listed defects makes the compiler fail
+	checkAcceptClosed(e, m, cfns)
+
 	// ---------------- operations: four tables
 	checkOperations(e, p, p.Pkgs[load.PkgRoot])
 	r.Check(m.facts.OpsRestricted && m.facts.Enforced, "E1.ops", "validation-restricts-operations", m.facts.OpsPos,
@@ -382,15 +385,32 @@ func subsetNodes[T comparable](a, b []T) bool {
 func checkCompilePanics(e *Env, m *e1Model, fns []*ssa.Function) {
 	r := e.R
 	p := m.p
-	bces, err := nopanic.CompilerBCE(p.Dir, ".")
-	if err != nil {
-		r.Unknown("E6.panic", "compiler-bce", "", err.Error())
-		return
-	}
+	// every package of the module that hosts a function of the compile call graph (the table lookups live in arch/;
+	// a helper added there - a name suggestion for the error message, say - is on the compile path like anything in
+	// the root package), not only the root package
 	inCompile := map[*ssa.Function]bool{}
+	pkgSet := map[string]bool{load.PkgRoot: true}
 	for _, f := range fns {
 		inCompile[f] = true
+		if f.Pkg != nil {
+			pkgSet[f.Pkg.Pkg.Path()] = true
+		}
 	}
+	var pkgPaths []string
+	for pp := range pkgSet {
+		pkgPaths = append(pkgPaths, pp)
+	}
+	sort.Strings(pkgPaths)
+	var bces []nopanic.BCE
+	for _, pp := range pkgPaths {
+		bs, err := nopanic.CompilerBCE(p.Dir, "./"+strings.TrimPrefix(strings.TrimPrefix(pp, load.Module), "/"))
+		if err != nil {
+			r.Unknown("E6.panic", "compiler-bce/"+baseName(pp), "", err.Error())
+			return
+		}
+		bces = append(bces, bs...)
+	}
+	r.Count("packages on the compile path (bounds-check listing)", len(pkgPaths))
 	patcher := map[*ssa.Function]bool{}
 	if asm := p.Func(load.PkgRoot, "Program.Assemble"); asm != nil {
 		var mark func(f *ssa.Function)
@@ -405,7 +425,10 @@ func checkCompilePanics(e *Env, m *e1Model, fns []*ssa.Function) {
 		}
 		mark(asm)
 	}
-	all := p.SrcFuncs(load.PkgRoot)
+	var all []*ssa.Function
+	for _, pp := range pkgPaths {
+		all = append(all, p.SrcFuncs(pp)...)
+	}
 	nAssumed, nGuarded := 0, 0
 	for _, b := range bces {
 		site := nopanic.FindSite(p.Fset, all, b)
@@ -498,6 +521,7 @@ func checkCompilePanics(e *Env, m *e1Model, fns []*ssa.Function) {
 			}
 		}
 	}
+	checkArgPanics(e, p, fns, "E6.panic", func(f *ssa.Function) bool { return patcher[f] }, true)
 	r.OK("E6.panic", "patcher-sites-assumed-under-C06", "", fmt.Sprintf("%d unproven bounds checks lie inside the patcher's index bookkeeping (Program.Assemble and callees): their safety follows from the invariants C06 checks necessary conditions of, and from E1.label (a used label is bound, so dest[0] exists); assumed, not proved", nAssumed))
 	r.Count("unproven bounds checks on the compile path (patcher)", nAssumed)
 	r.Count("unproven bounds checks on the compile path (guarded / elsewhere)", nGuarded)
